@@ -61,11 +61,13 @@ func inc(ip net.IP) {
 }
 
 func ip2int(ip net.IP) uint32 {
-	if len(ip) == 16 {
-		return binary.BigEndian.Uint32(ip[12:16])
+	ip4 := ip.To4()
+	if ip4 == nil {
+		// absent or non-IPv4 address
+		return 0
 	}
 
-	return binary.BigEndian.Uint32(ip)
+	return binary.BigEndian.Uint32(ip4)
 }
 
 func ipMask2int(ip net.IPMask) uint32 {
